@@ -4,7 +4,7 @@ from __future__ import annotations
 import re
 
 from vf import absval as av
-from vf.common import Acc, CpuTimeout, Ctx, cpu_limit, norm_msg
+from vf.common import rng_for, Acc, CpuTimeout, Ctx, cpu_limit, norm_msg
 from vf.gen import schema as gs
 from vf.ref import rfc4512
 
@@ -40,7 +40,7 @@ def gates(c, tier):
     thin = [f"{a}:{b}" for (a, b), v in sites.items() if len(v) < 2]
     if thin or not sites:
         out.append("spacing sites rendered with < 2 widths: " + ",".join(thin[:6]))
-    for k in ("syntax:quoted", "oids:single", "oids:paren", "esc:27", "esc:5c", "esc:5C", "part:sentence", "part:random", "part:edits", "outcome:ValueError", "outcome:definition"):
+    for k in ("syntax:quoted", "oids:single", "oids:paren", "esc:27", "esc:5c", "esc:5C", "part:sentence", "part:many-extensions", "part:random", "part:edits", "outcome:ValueError", "outcome:definition"):
         if c.get(k, 0) == 0:
             out.append(f"never observed {k}")
     if c.get("shard-stopped-early-after-cpu-timeouts", 0):
@@ -50,9 +50,9 @@ def gates(c, tier):
     return out[:10]
 
 
-def check_sentence(kind, text, d):
+def check_sentence(kind, text, d, budget=3):
     try:
-        with cpu_limit(3):
+        with cpu_limit(budget):
             got = gs.cls_of(sl, kind).from_string(text)
     except CpuTimeout:
         return [("sentence-cpu-timeout", f"grammar sentence ({len(text)} chars) not parsed within 3 CPU-seconds: {text[:100]!r}")]
@@ -126,6 +126,27 @@ def run_shard(ctx: Ctx, acc: Acc):
         if acc.counters.get("cpu-timeouts", 0) >= 4:
             acc.count("shard-stopped-early-after-cpu-timeouts")
             return
+    # "any number of extensions": definitions with hundreds to thousands of extensions, names and list members
+    sizes = [150, 400, 1100, 2600] if not ctx.thorough else [150, 400, 1100, 2600, 6000]
+    for si, size in enumerate(sizes):
+        for ki, kind in enumerate(gs.KINDS):
+            if (si * 3 + ki) % ctx.nshards != ctx.shard:
+                continue
+            d = gs.many_def(ctx.seed, kind, size)
+            r = rng_for("C17many", ctx.seed, size, kind)
+            text = gs.Render(r).definition(kind, d)
+            acc.case()
+            acc.count("part:many-extensions")
+            acc.nontrivial("many", kind, size)
+            try:
+                if rfc4512.PARSERS[kind](text) != d:
+                    raise rfc4512.SchemaRefError("differs")
+            except (rfc4512.SchemaRefError, RecursionError) as e:
+                acc.count("oracle_disagreement")
+                acc.notes.append(f"reference parser on the {size}-extension sentence: {type(e).__name__} {e}")
+                continue
+            for key, what in check_sentence(kind, text, d, budget=30):
+                acc.violation(key + ":many-extensions", what[:300], {"kind": kind, "many": [ctx.seed, size]})
     # totality
     for j in range(n // 8):
         r = ctx.rng("rand", j)
@@ -168,6 +189,11 @@ def run_shard(ctx: Ctx, acc: Acc):
 
 
 def replay(w):
+    if w.get("many"):
+        seed, size = w["many"]
+        d = gs.many_def(seed, w["kind"], size)
+        text = gs.Render(rng_for("C17many", seed, size, w["kind"])).definition(w["kind"], d)
+        return [(k + ":many-extensions", x) for k, x in check_sentence(w["kind"], text, d, budget=30)]
     if w.get("total"):
         return check_total(w["kind"], w["text"])[0]
     try:
